@@ -7,6 +7,8 @@ import (
 	"net/http"
 	"net/url"
 	"time"
+
+	"github.com/lesismal/nbio/mempool"
 )
 
 // C10, client part — the real ClientConn (Do bookkeeping, onResponse,
@@ -68,6 +70,11 @@ type verifClientWant struct {
 func verifC10Client(nreq, steps int, useDo bool) {
 	conn := &verifNetConn{failAt: -1}
 	e := verifHTTPEngine()
+	// response bodies live in pooled buffers: a tracking allocator (4-byte
+	// buffers, freed memory is poisoned) watches their ownership as well (C11)
+	tr := &verifTrackAlloc{inner: mempool.New(4, 1<<20)}
+	e.BodyAllocator = tr
+	mempool.DefaultMemPool = tr
 	cc := &ClientConn{Engine: e, conn: conn}
 	// after a lost connection ClientConn dials again; here that always fails
 	cc.Dial = func(network, addr string) (net.Conn, error) { return nil, errors.New("verif: dial refused") }
